@@ -102,7 +102,7 @@ theorem checkPattern_items (r : Rule) (q : Request) (hh : r.isHostnameAnchor = f
 theorem checkOptions_mask (r s : Rule) (q : Request) (hm : r.mask = s.mask)
     (h1 : r.domains = none) (h2 : r.notDomains = none) (h3 : s.domains = none) (h4 : s.notDomains = none) :
     checkOptions r q = checkOptions s q := by
-  unfold checkOptions checkCptAllowed Rule.isBadfilter Rule.forHttp Rule.forHttps Rule.firstParty
+  unfold checkOptions domainGate checkCptAllowed Rule.isBadfilter Rule.forHttp Rule.forHttps Rule.firstParty
     Rule.thirdParty Rule.isException
   simp only [hm, h1, h2, h3, h4]
 
